@@ -1,7 +1,7 @@
 /-
 Props/C05.lean — superposition: collections and sumup add fields; fields are linear in excitation.
 -/
-import MagpyVerif.Lemmas.Level2
+import MagpyVerif.Lemmas.Level2Compose
 namespace MagpyVerif.C05
 open MagpyVerif MagpyVerif.Level2
 variable {G V : Type}
@@ -34,5 +34,15 @@ end
 
 example : collapse (V := Int) 0 [none, some 2, none] [[[1]], [[10]], [[20]], [[5]]] = [[[1]], [[30]], [[5]]] := by
   decide
+
+
+/-- end to end (through `C06.level2_refines`): what any sensor pixel reads from a Collection is the
+sum of what it reads from each child entry — children may be sources or collections, nested to any
+depth, with any path lengths; `flipX` (the handedness flip) only needs to be additive -/
+theorem collection_is_sum_of_children [Group G] [AddCommGroup V] [DistribMulAction G V] [BEq G] [LawfulBEq G]
+    (flipX : V → V) (hf : ∀ a b, flipX (a + b) = flipX a + flipX b) (h0 : flipX 0 = 0)
+    (cs : List (Entry G V)) (k : Sens G V) (m : Nat) (x : V) :
+    specValue flipX (.coll cs) k m x = (cs.map fun c => specValue flipX c k m x).sum :=
+  specValue_coll flipX hf h0 cs k m x
 
 end MagpyVerif.C05
